@@ -45,7 +45,8 @@ def project(cs, evs, maxentries):
     for e in evs:
         if e["ev"] == "case":
             cur_src = e["sources"]
-            out.append(({"ev": "case", "sources": srcs_ints(cur_src), "maxentries": maxentries}, e))
+            out.append(({"ev": "case", "sources": srcs_ints(cur_src), "maxentries": maxentries,
+                         "failing": [sp["name"] for sp in cs.get("sources", []) if sp.get("kind") == "fail"]}, e))
     sess = {}
     for e in evs:
         if "s" in e:
